@@ -404,6 +404,26 @@ const probeMax = 14
 // activeKeys: the feature keys whose activation predicate is sampled at the CURRENT height
 var activeKeys = append(append([]string{}, chainsim.AllFeatures...), "F1", "F2")
 
+// featureActive asks the predicate the code itself uses for the feature (the dedicated one where the
+// codec has one, the generic named-feature predicate otherwise)
+func featureActive(cdc *codec.Codec, key string, h int64) bool {
+	switch key {
+	case codec.NonCustodialUpdateKey:
+		return cdc.IsAfterNonCustodialUpgrade(h)
+	case codec.OutputAddressEditKey:
+		return cdc.IsAfterOutputAddressEditorUpgrade(h)
+	case codec.PerChainRTTM:
+		return cdc.IsAfterPerChainRTTMUpgrade(h)
+	case codec.AppTransferKey:
+		return cdc.IsAfterAppTransferUpgrade(h)
+	case codec.RewardDelegatorsKey:
+		return cdc.IsAfterRewardDelegatorUpgrade(h)
+	case codec.EnforceMaxChainsUpdateKey:
+		return cdc.IsAfterEnforceMaxChainsUpgrade(h)
+	}
+	return cdc.IsAfterNamedFeatureActivationHeight(h, key)
+}
+
 // nx: derived values the nodes specification needs
 func (w *world) nx() map[string]interface{} {
 	ctx := w.s.Ctx()
@@ -489,8 +509,18 @@ func (w *world) snapshot() (map[string]interface{}, map[string]interface{}) {
 	}
 	core["probe"] = probe
 	act := []string{}
+	seenKey := map[string]bool{}
 	for _, k := range activeKeys {
-		if s.App.VerifCodec().IsAfterNamedFeatureActivationHeight(s.Height, k) {
+		seenKey[k] = true
+	}
+	keys := append([]string{}, activeKeys...)
+	for k := range codec.UpgradeFeatureMap {
+		if !seenKey[k] {
+			keys = append(keys, k)
+		}
+	}
+	for _, k := range keys {
+		if featureActive(s.App.VerifCodec(), k, s.Height) {
 			act = append(act, k)
 		}
 	}
